@@ -104,7 +104,7 @@ def decMaxPkCost : Ctx → Nat
 def checkGlobal (env : KeyEnv) (ctx : Ctx) (ms : Ms) : Bool :=
   let nodeOk : Bool :=
     match ms with
-    | .pkK k => decCheckPk env ctx k
+    | .pkK k | .pkH k => decCheckPk env ctx k
     | .multi _ ks | .sortedMulti _ ks =>
       (match ctx with | .tap => false | _ => ks.all (decCheckPk env ctx))
     | .multiA _ ks | .sortedMultiA _ ks =>
@@ -528,9 +528,9 @@ def decMaxScriptSize : Ctx → Option Nat
 /-- `max_opcode_count` -/
 def decMaxOpcodeCount : Ctx → Option Nat
   | .tap => none | _ => some 201
-/-- `max_exec_stack_size` -/
+/-- `max_exec_stack_size` (Tap since fix f6981157: BIP342 keeps the 1000-element limit) -/
 def decMaxExecStack : Ctx → Option Nat
-  | .segwitv0 => some 1000 | _ => none
+  | .segwitv0 | .tap => some 1000 | _ => none
 
 /-- `Miniscript::validate(&Ctx::CONSENSUS)`: `true` = `Ok(())` -/
 def validateConsensus (env : KeyEnv) (ctx : Ctx) (ms : Ms) : Bool :=
@@ -551,8 +551,22 @@ def validateConsensus (env : KeyEnv) (ctx : Ctx) (ms : Ms) : Bool :=
     -- allow_non_b = false
     (match typeOf ms with | some ty => ty.corr.base == .B | none => false)
 
-/-- `Miniscript::<Ctx::Key, Ctx>::decode_consensus` on bytes -/
-def decodeScript (dec : AtomDec) (env : KeyEnv) (ctx : Ctx) (bs : Bytes) : Except DecodeErr Ms :=
+/-- the two `ValidationParams` the decoder is modelled with: the context's `Ctx::CONSENSUS`
+(what `decode_consensus` passes) and `ValidationParams::MAX` ("anything goes") -/
+inductive DecParams | consensus | max
+  deriving DecidableEq, Repr
+
+/-- `Miniscript::validate(params)`.  Under `MAX` every switch is on and every limit is
+`usize::MAX`; only `max_recursive_depth = 402` remains (which `from_ast` enforced already). -/
+def validateWith (p : DecParams) (env : KeyEnv) (ctx : Ctx) (ms : Ms) : Bool :=
+  match p with
+  | .consensus => validateConsensus env ctx ms
+  | .max => decide ((extOf env ctx ms).treeHeight ≤ 402)
+
+/-- `Miniscript::<Ctx::Key, Ctx>::decode_with_validation_params` on bytes, for
+`params ∈ {Ctx::CONSENSUS, ValidationParams::MAX}` -/
+def decodeScriptP (p : DecParams) (dec : AtomDec) (env : KeyEnv) (ctx : Ctx) (bs : Bytes) :
+    Except DecodeErr Ms :=
   match lex bs with
   | .error e => .error (.lex e)
   | .ok toks =>
@@ -562,7 +576,11 @@ def decodeScript (dec : AtomDec) (env : KeyEnv) (ctx : Ctx) (bs : Bytes) : Excep
       if !checkGlobal env ctx top then .error .context
       else if (typeOf top).isNone then .error .typeCheck
       else if !rest.isEmpty then .error .trailing
-      else if !validateConsensus env ctx top then .error .validation
+      else if !validateWith p env ctx top then .error .validation
       else .ok top
+
+/-- `Miniscript::<Ctx::Key, Ctx>::decode_consensus` on bytes -/
+def decodeScript (dec : AtomDec) (env : KeyEnv) (ctx : Ctx) (bs : Bytes) : Except DecodeErr Ms :=
+  decodeScriptP .consensus dec env ctx bs
 
 end MsVerif
